@@ -3,7 +3,7 @@
    [sizes] = the bit sizes present in the pack (any order, duplicates allowed);
    (mn, prefer, mx) = the request handed to ModulusPack.get_modulus, arbitrary integers
    (inverted and inconsistent requests included). *)
-From PV Require Import Bytes C43 C43_proofs.
+From PV Require Import Bytes C43_gen C43 C43_proofs.
 Open Scope Z_scope.
 
 (* an in-range size at least the preferred size exists  ==>  the smallest such size is served *)
@@ -52,7 +52,9 @@ Theorem C43_never_offers_rejected_line :
 Proof. exact never_offers_rejected. Qed.
 Print Assumptions C43_never_offers_rejected_line.
 
-(* ... and an accepted line met the type / test / tries / bit-length requirements *)
+(* ... and an accepted line met the type / test / tries / bit-length requirements (the literal
+   thresholds of the statement; the model's come from the source via Gen/C43_gen.v, so a changed
+   threshold in primes.py breaks this proof) *)
 Theorem C43_accepted_line_meets_requirements :
   forall l bl g m,
     parse_modulus l = Some (bl, (g, m)) ->
@@ -99,6 +101,26 @@ Theorem C43_gex_honours_consistent_request :
     gex_serve p smin smax mn prefer mx r = get_modulus p mn prefer mx r.
 Proof. exact gex_consistent_request. Qed.
 Print Assumptions C43_gex_honours_consistent_request.
+
+(* the same two statements at the limits the source has now (Gen/C43_gen.v), which are sane *)
+Theorem C43_gex_limits :
+  1024 <= gex_min_bits <= gex_preferred_bits /\ gex_preferred_bits <= gex_max_bits.
+Proof. exact gex_limits. Qed.
+Print Assumptions C43_gex_limits.
+
+Theorem C43_gex_live_request_consistent :
+  forall mn prefer mx,
+    let '(a, b, c) := normalise_request gex_min_bits gex_max_bits mn prefer mx in
+    a <= b <= c /\ gex_min_bits <= b <= gex_max_bits /\ a <= mn /\ mx <= c.
+Proof. exact gex_live_consistent. Qed.
+Print Assumptions C43_gex_live_request_consistent.
+
+Theorem C43_gex_live_honours_consistent_request :
+  forall p mn prefer mx r,
+    mn <= prefer <= mx -> gex_min_bits <= prefer <= gex_max_bits ->
+    gex_serve_live p mn prefer mx r = get_modulus p mn prefer mx r.
+Proof. exact gex_live_honours. Qed.
+Print Assumptions C43_gex_live_honours_consistent_request.
 
 (* KexGex never reaches the first-scan defect: on normalised requests the code before the
    repair and the repaired code choose the same size *)
